@@ -56,8 +56,7 @@ class FileConfig:
         self.data[key] = try_conv(value, CONVERTERS)
 
     def __delitem__(self, key):
-        if key in self.data:
-            del self.data[key]
+        self.data.maps[0].pop(key, None)
 
     def __len__(self):
         return len(self.data)
